@@ -31,6 +31,8 @@ OBLIGATIONS = [
     "Grog.C03.no_second_wake",
     "Grog.C03.running_le_workers",
     "Grog.C03.no_command_start_under_cancelled_context",
+    "Grog.C03.command_only_after_all_dependencies",
+    "Grog.C03.composed_no_command_start_after_cancel",
     "Grog.C03.exec_at_most_once",
     "Grog.C03.exec_more_than_once_witness_old",
 ]
